@@ -144,8 +144,12 @@ PickOp == /\ phase = "op"
 PickLen == /\ phase = "len"
            /\ \E L \in 0..MaxLen(stim.op) : stim' = [stim EXCEPT !.len = L]
            /\ phase' = "arg" /\ UNCHANGED s
+\* inside an open CIDInit block (env 2) the 65536-byte string is left out: the end* procedures compare and copy
+\* their string operands byte by byte, which TLC does at a few vectors per minute; codes of that length add nothing
+BigStrIdx == {i \in 1..NP : Pool[i].t = "str" /\ Pool[i].len > 1000}
 PickArg == /\ phase = "arg" /\ Len(stim.idx) < stim.len
-           /\ \E i \in Cands(stim.op, stim.len, Len(stim.idx) + 1) : stim' = [stim EXCEPT !.idx = Append(@, i)]
+           /\ \E i \in Cands(stim.op, stim.len, Len(stim.idx) + 1) \ (IF stim.env = 2 THEN BigStrIdx ELSE {}) :
+                 stim' = [stim EXCEPT !.idx = Append(@, i)]
            /\ UNCHANGED <<phase, s>>
 Start == /\ phase = "arg" /\ Len(stim.idx) = stim.len
          /\ phase' = "run"
